@@ -76,7 +76,10 @@ impl TransportVisitor for V {
                         Action::Hold
                     } else {
                         sh.tx.borrow_mut().push(readable.to_vec());
-                        Action::Complete(vec![], 0)
+                        // The used length of a transmit buffer means nothing (the device wrote
+                        // nothing); this device records 1 for every non-empty one, another
+                        // might record 0 or the full length.
+                        Action::Complete(vec![], readable.len().min(1) as u32)
                     }
                 }),
             )
@@ -363,7 +366,8 @@ impl TransportVisitor for VFmt {
                         Action::Hold
                     } else {
                         tx.borrow_mut().extend_from_slice(readable);
-                        Action::Complete(vec![], 0)
+                        // (Records half the length as used; see above.)
+                        Action::Complete(vec![], (readable.len() / 2) as u32)
                     }
                 }),
             )
